@@ -233,4 +233,29 @@ theorem C17_listed_once (c : Ctx) (r : Relations) (strat : Strategy) (sloc : Cod
   refine h2.nodup_iff.mpr (List.Nodup.sublist List.filter_sublist ?_)
   exact List.Nodup.sublist (runPipeline_sublist c r _ _ _ h1) hn
 
+/-- **Headings in increasing cost order, under BOTH sorting strategies.** With `by_cost_bucket`
+grouping, when the assessed list is sorted by non-negative cost (what `assess` returns), every
+program listed under an earlier heading costs strictly less than every program under a later one —
+also under the lexicographic strategy, where the order INSIDE a heading is by path (`C17_order`). -/
+theorem C17_headings_increasing (i : Input) (hg : i.grouping = true)
+    (hsorted : i.assessed.Pairwise (fun a b => a.1 ≤ b.1)) (hnonneg : ∀ cp ∈ i.assessed, 0 ≤ cp.1)
+    (b : List (Bucket × List Section)) (h : body i = some b) :
+    b.Pairwise fun g1 g2 => ∀ s1 ∈ g1.2, ∀ s2 ∈ g2.2, s1.cost < s2.cost := by
+  have hk := body_keys_strict i hsorted hnonneg b h
+  have hmem : ∀ g ∈ b, ∀ s ∈ g.2, 0 ≤ s.cost ∧ g.1 = costBucket s.cost := by
+    intro g hgm s hs
+    have h1 : (s.cost, s.path) ∈ b.flatMap fun g => g.2.map fun s => (s.cost, s.path) :=
+      List.mem_flatMap.mpr ⟨g, hgm, List.mem_map_of_mem hs⟩
+    have h2 := (List.mem_filter.mp ((C17_membership i b h).mem_iff.mp h1)).1
+    exact ⟨hnonneg _ h2, C17_bucket i hg b h g hgm s hs⟩
+  refine hk.imp_of_mem ?_
+  intro g1 g2 hg1 hg2 hr s1 hs1 s2 hs2
+  obtain ⟨_, e1⟩ := hmem g1 hg1 s1 hs1
+  obtain ⟨n2, e2⟩ := hmem g2 hg2 s2 hs2
+  rw [e1, e2] at hr
+  by_cases hlt : s1.cost < s2.cost
+  · exact hlt
+  · have hge : s2.cost ≤ s1.cost := by grind
+    exact absurd (costBucket_rank_mono n2 hge) (by omega)
+
 end Paroxy.Props.C17
